@@ -1,5 +1,5 @@
 """Property-specific engines that do not fit the generic 'rapidcheck runner in shards' mould."""
-import glob, hashlib, json, os, re, shutil, subprocess, time
+import glob, hashlib, json, os, re, shutil, subprocess, tempfile, time
 
 
 def c01_fuzz_post(pid, tier, seed, ctx):
@@ -85,3 +85,220 @@ def c01_fuzz_post(pid, tier, seed, ctx):
                          "distinct_nontrivial_sum_over_jobs": distinct, "deep_handler_frames": deep, "coverage_edges_max": cov_edges,
                          "load_noise_artifacts_ignored": noise, "crash_artifacts": len(arts)}}
     return violations, cov, herr
+
+
+# ---------------------------------------------------------------------------------------------- C20
+C20_MEM = {"memcpy", "memset", "memmove", "memcmp"}
+C20_RUNTIME = re.compile(r"^(__(u?div|u?mod|mul|ashl|lshr|ashr|neg|cmp|ucmp)[sdt]i[34]$|__(u?divmod)[sdt]i4$|__stack_chk_(fail|guard)$|_GLOBAL_OFFSET_TABLE_$|__(popcount|clz|ctz|bswap|ffs)[sdt]i2$)")
+C20_FREESTANDING = {"stddef.h", "stdint.h", "stdbool.h", "stdarg.h", "limits.h", "float.h", "iso646.h", "stdalign.h", "stdnoreturn.h"}
+C20_OS_MACROS = ["__APPLE__", "__linux__", "__linux", "linux", "_WIN32", "_WIN64", "_WIN16", "__FreeBSD__", "__OpenBSD__", "__NetBSD__", "__sun", "__sun__", "__unix__", "__unix", "unix",
+                 "__ANDROID__", "__HAIKU__", "__BEOS__", "__WATCOMC__", "ESP_PLATFORM", "__VMKERNEL__", "__CYGWIN__", "__MINGW32__", "__DragonFly__", "__QNX__", "__MACH__", "VMKERNEL"]
+
+
+def c20_port_functions(repo):
+    txt = open(os.path.join(repo, "lltdResponder", "lltdPort.h")).read()
+    txt = re.sub(r"/\*.*?\*/", "", txt, flags=re.S)
+    txt = re.sub(r"//.*", "", txt)
+    return set(re.findall(r"\b(lltd_port_\w+)\s*\(", txt))
+
+
+def c20_configs(repo):
+    units = sorted(glob.glob(os.path.join(repo, "lltdResponder", "*.c")))
+    cfgs = []
+    for cc in ("gcc", "clang"):
+        for opt in ("-O0", "-O2", "-Os"):
+            for mode in ("hosted", "freestanding"):
+                for testing in (0, 1):
+                    for unit in [[u] for u in units] + [units]:
+                        cfgs.append(dict(cc=cc, opt=opt, mode=mode, testing=testing, units=[os.path.relpath(u, repo) for u in unit]))
+    return cfgs
+
+
+def c20_build(repo, cfg, outdir, tag):
+    """compile the unit(s) of one configuration, relocatably link when several; returns (object, error)"""
+    flags = [cfg["opt"], "-I" + os.path.join(repo, "lltdResponder"), "-fno-builtin" if False else "-w"]
+    if cfg["mode"] == "freestanding":
+        flags.append("-ffreestanding")
+    if cfg["testing"]:
+        flags.append("-DLLTD_TESTING")
+    objs = []
+    for i, u in enumerate(cfg["units"]):
+        o = os.path.join(outdir, "%s-%d.o" % (tag, i))
+        r = subprocess.run([cfg["cc"], "-std=gnu11", *flags, "-c", os.path.join(repo, u), "-o", o], stdout=subprocess.PIPE, stderr=subprocess.STDOUT, text=True)
+        if r.returncode:
+            return None, "%s does not compile with %s %s: %s" % (u, cfg["cc"], " ".join(flags), r.stdout[-800:])
+        objs.append(o)
+    if len(objs) == 1:
+        return objs[0], None
+    out = os.path.join(outdir, tag + "-all.o")
+    r = subprocess.run(["ld", "-r", "-o", out, *objs], stdout=subprocess.PIPE, stderr=subprocess.STDOUT, text=True)
+    if r.returncode:
+        return None, "ld -r failed: " + r.stdout[-800:]
+    return out, None
+
+
+def c20_undefined(obj):
+    r = subprocess.run(["nm", "-u", obj], stdout=subprocess.PIPE, text=True)
+    return sorted(l.split()[-1] for l in r.stdout.splitlines() if l.strip())
+
+
+def c20_core_defined(repo, cfg, outdir, tag):
+    """symbols the core defines itself in this configuration (a single unit may reference its sibling units)"""
+    units = sorted(os.path.relpath(u, repo) for u in glob.glob(os.path.join(repo, "lltdResponder", "*.c")))
+    allcfg = dict(cfg, units=units)
+    obj, err = c20_build(repo, allcfg, outdir, tag + "-core")
+    if err:
+        return set()
+    r = subprocess.run(["nm", "--defined-only", obj], stdout=subprocess.PIPE, text=True)
+    return set(l.split()[-1] for l in r.stdout.splitlines() if l.strip())
+
+
+def c20_check_cfg(repo, cfg, outdir, tag, P):
+    obj, err = c20_build(repo, cfg, outdir, tag)
+    if err:
+        return None, "BUILD: " + err
+    und = c20_undefined(obj)
+    own = c20_core_defined(repo, cfg, outdir, tag) if len(cfg["units"]) == 1 else set()
+    und = [s for s in und if s not in own]
+    bad = [s for s in und if s not in P and s not in C20_MEM and not C20_RUNTIME.match(s)]
+    if bad:
+        return und, "core object (%s %s %s%s, %s) references symbol(s) outside the port API: %s" % (
+            cfg["cc"], cfg["opt"], cfg["mode"], " -DLLTD_TESTING" if cfg["testing"] else "", "+".join(os.path.basename(u) for u in cfg["units"]), ", ".join(bad))
+    return und, None
+
+
+def c20_lint(repo):
+    """include / OS-macro lint over lltdResponder/*.{c,h}; returns list of problems"""
+    probs = []
+    core = os.path.join(repo, "lltdResponder")
+    for f in sorted(glob.glob(os.path.join(core, "*.[ch]"))):
+        txt = open(f, errors="replace").read()
+        code = re.sub(r"/\*.*?\*/", lambda m: "\n" * m.group(0).count("\n"), txt, flags=re.S)
+        for n, line in enumerate(code.splitlines(), 1):
+            s = re.sub(r"//.*", "", line).strip()
+            m = re.match(r"#\s*include\s*<([^>]+)>", s)
+            if m and m.group(1) not in C20_FREESTANDING:
+                probs.append("%s:%d includes <%s>, which is not a freestanding C header" % (os.path.relpath(f, repo), n, m.group(1)))
+            m = re.match(r'#\s*include\s*"([^"]+)"', s)
+            if m and not os.path.exists(os.path.join(core, m.group(1))):
+                probs.append('%s:%d includes "%s", which is not inside lltdResponder/' % (os.path.relpath(f, repo), n, m.group(1)))
+            elif m and os.path.realpath(os.path.join(core, m.group(1))).find(os.path.realpath(core) + os.sep) != 0:
+                probs.append('%s:%d includes "%s", which leaves lltdResponder/' % (os.path.relpath(f, repo), n, m.group(1)))
+            if re.match(r"#\s*(if|ifdef|ifndef|elif)\b", s):
+                for mac in C20_OS_MACROS:
+                    if re.search(r"(?<![A-Za-z0-9_])%s(?![A-Za-z0-9_])" % re.escape(mac), s):
+                        probs.append("%s:%d preprocessor conditional on OS macro %s" % (os.path.relpath(f, repo), n, mac))
+    script = os.path.join(repo, "scripts", "lint_core_no_os_conditionals.sh")
+    if os.path.exists(script):
+        r = subprocess.run(["bash", script], cwd=repo, stdout=subprocess.PIPE, stderr=subprocess.STDOUT, text=True)
+        if r.returncode:
+            probs.append("the repository's own scripts/lint_core_no_os_conditionals.sh fails: " + r.stdout.strip()[-400:])
+    return probs
+
+
+def c20_freestanding_link(repo, outdir, P):
+    """the whole core links with -nostdlib -ffreestanding against a stub that defines exactly the port API (+ mem*)"""
+    units = sorted(glob.glob(os.path.join(repo, "lltdResponder", "*.c")))
+    stub = os.path.join(outdir, "portstub.c")
+    with open(stub, "w") as f:
+        f.write("/* generated: one definition per function declared in lltdPort.h */\n")
+        for n in sorted(P | C20_MEM):
+            f.write("void %s(void) {}\n" % n)
+        f.write("void __stack_chk_fail(void) {}\nvoid _start(void) {}\n")
+    probs = []
+    for cc in ("gcc", "clang"):
+        for opt in ("-O0", "-O2"):
+            exe = os.path.join(outdir, "core-free-%s%s" % (cc, opt))
+            r = subprocess.run([cc, "-std=gnu11", opt, "-w", "-ffreestanding", "-fno-builtin", "-nostdlib", "-static", "-fno-stack-protector", "-I" + os.path.join(repo, "lltdResponder"),
+                                "-Wl,--no-undefined", "-o", exe, *units, stub], stdout=subprocess.PIPE, stderr=subprocess.STDOUT, text=True)
+            if r.returncode:
+                und = sorted(set(re.findall(r"undefined reference to `([^']+)'", r.stdout)))
+                probs.append("freestanding link of the core against the port stub fails with %s %s: %s" % (cc, opt, ("unresolved " + ", ".join(und)) if und else r.stdout[-400:]))
+    return probs
+
+
+def c20_custom(pid, tier, seed, ctx):
+    H = ctx["helpers"]
+    repo, rundir, t0 = ctx["REPO"], ctx["rundir"], ctx["t0"]
+    P = c20_port_functions(repo)
+    cfgs = c20_configs(repo)
+    results = []
+
+    def one(i):
+        und, err = c20_check_cfg(repo, cfgs[i], rundir, "c%03d" % i, P)
+        return i, und, err
+    import concurrent.futures as cf
+    with cf.ThreadPoolExecutor(H.NCPU) as ex:
+        results = list(ex.map(one, range(len(cfgs))))
+    violations, samples, nontriv, used = [], [], set(), set()
+    for i, und, err in results:
+        cfg = cfgs[i]
+        key = (cfg["cc"], cfg["opt"], cfg["mode"], cfg["testing"], tuple(cfg["units"]))
+        if und:
+            nontriv.add(key)
+            used.update(s for s in und if s in P)
+        if len(samples) < 5 and und and i % 37 == 0:
+            samples.append({"config": cfg, "undefined": und})
+        if err:
+            violations.append(("config", cfg, err))
+    for pr in c20_lint(repo):
+        violations.append(("lint", None, pr))
+    for pr in c20_freestanding_link(repo, rundir, P):
+        violations.append(("link", None, pr))
+    # known findings are matched on the message text
+    known = H.known_findings(pid)
+    out_viol = []
+    for kind, cfg, msg in violations:
+        if any(sig in msg for sig, _ in known):
+            continue
+        h = hashlib.sha1(msg.encode()).hexdigest()[:10]
+        dst = os.path.join(H.OUT, "replays", pid, "found-%s.case" % h)
+        os.makedirs(os.path.dirname(dst), exist_ok=True)
+        json.dump({"kind": kind, "config": cfg, "message": msg}, open(dst, "w"), indent=1)
+        out_viol.append((dst, msg))
+    cov = {"evaluations": len(cfgs) + 2, "distinct_nontrivial": len(nontriv), "exhaustive": True,
+           "rule": "complete matrix {gcc, clang} x {-O0,-O2,-Os} x {hosted,-ffreestanding} x {+/-LLTD_TESTING} x {each lltdResponder/*.c alone, all relocatably linked}: nm -u of every object must be a subset of the functions "
+                   "declared in lltdPort.h (parsed at run time) plus memcpy/memset/memmove/memcmp plus compiler runtime helpers; freestanding -nostdlib link against a generated stub defining exactly the port API; "
+                   "include and OS-macro lint incl. the repository's own script. non-trivial = object with >= 1 undefined symbol; distinct = (compiler, flags, unit) tuple",
+           "samples": samples or [{"config": cfgs[0], "undefined": results[0][1]}], "port_functions_declared": len(P), "port_functions_used": len(used),
+           "objects_checked": len(cfgs), "lint_files": len(glob.glob(os.path.join(repo, "lltdResponder", "*.[ch]")))}
+    ev = {"property_id": pid, "tier": tier, "seed": seed, "level": "exploration", "coverage": cov,
+          "assumptions": ["gcc 12 and clang 14 on x86-64 stand for 'any supported compiler setting'; other ports' cross compilers (OpenWatcom, ESP-IDF, Solaris cc) are not installed here",
+                          "symbols the compiler may emit by itself: memcpy/memset/memmove/memcmp, stack protector, libgcc integer helpers"],
+          "wall_s": round(time.time() - t0, 2), "violations": len(out_viol), "repo": repo, "technique": "exhaustive configuration matrix with a set-inclusion oracle over undefined symbols; include/macro lint"}
+    os.makedirs(os.path.join(H.OUT, "evidence"), exist_ok=True)
+    json.dump(ev, open(os.path.join(H.OUT, "evidence", pid + ".json"), "w"), indent=1)
+    for sig, desc in known:
+        print("KNOWN-FINDING: property=%s %s" % (pid, desc))
+    for dst, msg in out_viol[:5]:
+        print("  " + msg[:600])
+        print("VIOLATION property=%s replay=%s" % (pid, dst))
+    if out_viol:
+        return 1
+    print("OK %s tier=%s objects=%d nontrivial=%d port functions used %d/%d wall=%.1fs" % (pid, tier, len(cfgs), len(nontriv), len(used), len(P), ev["wall_s"]))
+    return 0
+
+
+def c20_replay(pid, path, ctx):
+    H = ctx["helpers"]
+    repo = ctx["REPO"]
+    j = json.load(open(path))
+    P = c20_port_functions(repo)
+    d = tempfile.mkdtemp(prefix="c20r.", dir=ctx["B"] if os.path.isdir(ctx["B"]) else None)
+    try:
+        if j["kind"] == "config":
+            und, err = c20_check_cfg(repo, j["config"], d, "r", P)
+            probs = [err] if err else []
+        elif j["kind"] == "lint":
+            probs = c20_lint(repo)
+        else:
+            probs = c20_freestanding_link(repo, d, P)
+    finally:
+        shutil.rmtree(d, ignore_errors=True)
+    if probs:
+        for p in probs[:5]:
+            print("REPLAY-FAIL " + p[:600])
+        print("VIOLATION property=%s replay=%s" % (pid, path))
+        return 1
+    print("REPLAY-PASS")
+    return 0
